@@ -167,6 +167,10 @@ Call ==
                                                     ELSE IF Kind = "sub" /\ c.v # 9 THEN ToBaseD(wx.dir, wx.vcwd, c.p) ELSE c.p, FALSE) IN
           \* removing or moving the working directory (or an ancestor of it) is outside the universe
           /\ ~(c.op \in {"remove", "removeall", "rename"} /\ rp.err = "ok" /\ rp.id # Root /\ rp.id \in Range(st.cwd))
+          \* (BasePathFS hands relative paths to the base as they are - KF31 - so the same exclusion applies to the
+          \* path as the base reads it)
+          /\ ~(Kind = "basepath" /\ ~c.p.abs /\ c.op \in {"remove", "removeall", "rename"}
+               /\ LET rr == Res(st, c.p, FALSE) IN rr.err = "ok" /\ rr.id # Root /\ rr.id \in Range(st.cwd))
           \* ... and so is the parent removing or moving the view's working directory from under it
           /\ ~(Kind = "sub" /\ c.v = 9 /\ c.op \in {"remove", "removeall", "rename"}
                /\ LET vc == wx.dir \o wx.vcwd IN Len(c.p.parts) <= Len(vc) /\ SubSeq(vc, 1, Len(c.p.parts)) = c.p.parts)
